@@ -27,6 +27,12 @@ ASSUMPTIONS = [
     'MANIFEST entries without checksums and with unchanged size are DONT_CARE (nothing recorded to compare)',
     'fresh loader per query; loaders that ran an update before are exercised under C10',
     'depth 4-5 use the five cyclic rotations of the compression formats instead of all 5^d assignments',
+    'delegation family: depth 1-2 (thorough 3), at every level L the link to the next level goes through a second Manifest '
+    'in the SAME directory (Manifest.files, plain/gz; thorough every format); chain positions are then NODES and k ranges '
+    'over nodes; a Manifest in directory D is needed by every query at or below D',
+    'dup family: the deepest link is recorded by two MANIFEST entries in its parent (identical / disjoint hash sets)',
+    'find_timestamp() is one of the queries and the FIRST call of the forward shared-loader sequence (a harmless earlier '
+    'call on the same loader must not weaken later queries)',
 ]
 
 DNAMES = ['d', 'e f', 'gé', 'h', 'i']
@@ -35,9 +41,20 @@ MHASHES = [('SHA1',), ('MD5', 'SHA256'), ()]
 UNSUPPORTED = ('WHIRLPOOL', 'BLAKE3')
 
 
-def build(depth, comps, mh, sib, seed, tamper=None):
+def other_hashes(mh):
+    return ('MD5',) if 'MD5' not in mh else ('SHA512',)
+
+
+def build(depth, comps, mh, sib, seed, tamper=None, deleg=None, dup=None):
     """-> (Tree with Manifests, info).  tamper = (kind, j) applied to the data
-    before rendering (fully consistent result)."""
+    before rendering (fully consistent result).
+
+    deleg = (L, comp): the Manifest of level L does not list the next level itself but a second Manifest in ITS OWN
+    directory ('Manifest.files[.comp]') which lists it (the layout of the Gentoo repository).  The chain is then a
+    list of NODES; info['mpaths'] is indexed by node, info['first'][lv] / info['last'][lv] give the first / last node
+    living in the directory of level lv.  Without deleg nodes and levels coincide.
+    dup = None | 'same' | 'disjoint': the link into the deepest level is recorded by TWO MANIFEST entries of its
+    parent (identical lines / second one with a disjoint hash set)."""
     dn = rot(DNAMES, seed)
     dirs = ['']
     for i in range(depth):
@@ -67,47 +84,68 @@ def build(depth, comps, mh, sib, seed, tamper=None):
             dist[j] = (dist[j][0], 999)
         elif kind == 'sib_change':
             files[extra] = b'SIBLING-EVIL'
-    mpaths = [mname(dirs[lv], comps[lv - 1] if lv else None) for lv in range(depth + 1)]
+    lpaths = [mname(dirs[lv], comps[lv - 1] if lv else None) for lv in range(depth + 1)]
     sibpath = mname(dirs[-1], None, 'Manifest.b') if sib else None
     specs = []
+    nodes, first, last = [], [], []
     for lv, d in enumerate(dirs):
         items = []
         for p in sorted(files):
             if os.path.dirname(p) == d and p != extra:
                 items.append(('F', 'DATA', p, ('SHA1',)))
         items.append(('E', ('DIST', dist[lv][0], dist[lv][1], (('SHA1', '0' * 40),))))
+        if lv == 0:
+            items.append(('L', 'TIMESTAMP 2020-02-02T02:02:02Z'))
+        down = []
         if lv < depth:
-            items.append(('M', mpaths[lv + 1], mh))
+            down.append(('M', lpaths[lv + 1], mh))
+            if dup and lv == depth - 1:
+                down.append(('M', lpaths[lv + 1], mh if dup == 'same' else other_hashes(mh)))
         if sib and lv == depth - 1:
-            items.append(('M', sibpath, mh))
-        specs.append(MSpec(mpaths[lv], items))
+            down.append(('M', sibpath, mh))
+        first.append(len(nodes))
+        nodes.append(lpaths[lv])
+        if deleg and deleg[0] == lv and lv < depth:
+            dpath = mname(d, deleg[1], 'Manifest.files')
+            items.append(('M', dpath, mh))
+            specs.append(MSpec(lpaths[lv], items))
+            specs.append(MSpec(dpath, down))
+            nodes.append(dpath)
+        else:
+            specs.append(MSpec(lpaths[lv], items + down))
+        last.append(len(nodes) - 1)
     if sib:
         specs.append(MSpec(sibpath, [('F', 'DATA', extra, ('SHA1',))]))
     t = Tree(files)
     render_layout(t, specs)
-    return t, {'dirs': dirs, 'mpaths': mpaths, 'sibpath': sibpath, 'extra': extra,
-               'dist': dist}
+    return t, {'dirs': dirs, 'mpaths': nodes, 'sibpath': sibpath, 'extra': extra,
+               'dist': dist, 'first': first, 'last': last}
 
 
 def queries(info, depth, sib):
     """(label, needs_levels, callable(loader))"""
     dirs, out = info['dirs'], []
+    last = info.get('last') or list(range(depth + 1))
+    nmax = len(info['mpaths']) - 1
+    # a query that needs only the Manifests of the top directory; first in the list = it PRECEDES every other query
+    # on the shared loader in forward order (state left behind by a harmless call must not weaken later ones)
+    out.append(('find_timestamp:0', (last[0], False), lambda m: m.find_timestamp()))
     for p, d in enumerate(dirs):
-        out.append((f'dir:{p}', (depth, True), lambda m, d=d: m.assert_directory_verifies(d)))
+        out.append((f'dir:{p}', (nmax, True), lambda m, d=d: m.assert_directory_verifies(d)))
     for lv, d in enumerate(dirs):
         for name in (f'f{lv}', 'added'):
             path = os.path.join(d, name)
-            need = (lv, bool(sib) and lv == depth)
+            need = (last[lv], bool(sib) and lv == depth)
             out.append((f'verify_path:{lv}:{name}', need, lambda m, path=path: m.verify_path(path)))
             out.append((f'assert_path:{lv}:{name}', need, lambda m, path=path: m.assert_path_verifies(path)))
             out.append((f'find_path:{lv}:{name}', need, lambda m, path=path: m.find_path_entry(path)))
-        out.append((f'find_dist:{lv}', (lv, bool(sib) and lv == depth),
+        out.append((f'find_dist:{lv}', (last[lv], bool(sib) and lv == depth),
                     lambda m, d=d, n=info['dist'][lv][0]: m.find_dist_entry(n, d)))
     if sib:
         path = info['extra']
-        out.append(('verify_path:sib', (depth, True), lambda m: m.verify_path(path)))
-        out.append(('find_path:sib', (depth, True), lambda m: m.find_path_entry(path)))
-        out.append(('assert_path:sib', (depth, True), lambda m: m.assert_path_verifies(path)))
+        out.append(('verify_path:sib', (nmax, True), lambda m: m.verify_path(path)))
+        out.append(('find_path:sib', (nmax, True), lambda m: m.find_path_entry(path)))
+        out.append(('assert_path:sib', (nmax, True), lambda m: m.assert_path_verifies(path)))
     return out
 
 
@@ -349,6 +387,15 @@ def shards(tier, seed):
             assigns = [tuple(rot(list(COMPS), r)[:depth]) for r in range(5)]
         for comps in assigns:
             out.append(('chain', depth, comps))
+    # same-directory delegation (top -> Manifest.files -> sub/Manifest) at every level, and doubly recorded links
+    for depth in ((1, 2) if tier == 'quick' else (1, 2, 3)):
+        cs = [tuple([None] * depth), tuple(rot(list(COMPS), 1)[:depth])]
+        for comps in cs:
+            for L in range(depth):
+                for dcomp in ((None, 'gz') if tier == 'quick' else COMPS):
+                    out.append(('deleg', depth, comps, L, dcomp))
+            for dup in ('same', 'disjoint'):
+                out.append(('dup', depth, comps, dup))
     return out
 
 
@@ -360,11 +407,22 @@ def run_shard(spec, tier, seed, scratch):
     if spec[0] == 'unsupported':
         run_unsupported(spec, tier, seed, scratch, stats)
         return stats
-    _c, depth, comps = spec
+    deleg = dup = None
+    if spec[0] == 'deleg':
+        _c, depth, comps, L, dcomp = spec
+        deleg = (L, dcomp)
+    elif spec[0] == 'dup':
+        _c, depth, comps, dup = spec
+    else:
+        _c, depth, comps = spec
     for mh, sib in itertools.product(MHASHES, (0, 1)):
         if tier == 'quick' and depth == 3 and (sib or mh != MHASHES[0]) and comps[0] not in (None, 'gz'):
             continue
-        base, info = build(depth, comps, mh, sib, seed)
+        if tier == 'quick' and spec[0] != 'chain' and sib and mh != MHASHES[0]:
+            continue
+        base, info = build(depth, comps, mh, sib, seed, deleg=deleg, dup=dup)
+        nodes, first, last = info['mpaths'], info['first'], info['last']
+        nmax = len(nodes) - 1
         jinfo = dict(info, dist={str(a): list(b) for a, b in info['dist'].items()})
         # untampered tree: everything must work
         case0 = {'tree': base.to_json(), 'base': base.to_json(), 'depth': depth, 'sib': sib, 'k': None,
@@ -376,39 +434,42 @@ def run_shard(spec, tier, seed, scratch):
         if sib:
             kinds.append(('sib_change', depth))
         for kind, j in kinds:
-            tam, _ = build(depth, comps, mh, sib, seed, tamper=(kind, j))
+            tam, _ = build(depth, comps, mh, sib, seed, tamper=(kind, j), deleg=deleg, dup=dup)
             is_sib = kind == 'sib_change'
-            # k = level up to which Manifests were recomputed; k=0: all (consistent).
-            # For the sibling object the recomputed set is Manifest.b plus levels
-            # depth-1..k; 'sibonly' = only Manifest.b was recomputed.
-            ks = list(range(0, depth if is_sib else j + 1)) + (['sibonly'] if is_sib else [])
+            # k = NODE up to which Manifests were recomputed; k=0: all (consistent).
+            # For the sibling object the recomputed set is Manifest.b plus the nodes from the one listing it
+            # up to k; 'sibonly' = only Manifest.b was recomputed.
+            ks = list(range(0, (last[depth - 1] if is_sib else first[j]) + 1)) + (['sibonly'] if is_sib else [])
             for k in ks:
                 t = tam.clone()
                 broken_is_sib = k == 'sibonly'
-                upto = depth if broken_is_sib else k
-                # restore untouched Manifests (levels < k) from the base tree
-                for lv in range(0, upto):
-                    t.files[info['mpaths'][lv]] = base.files[info['mpaths'][lv]]
+                upto = nmax + 1 if broken_is_sib else k
+                # restore untouched Manifests (nodes < k) from the base tree
+                for n in range(0, upto):
+                    t.files[nodes[n]] = base.files[nodes[n]]
                 if k == 0:
                     broken = None
                 elif broken_is_sib:
                     broken = info['sibpath']
                 else:
-                    broken = info['mpaths'][k]
-                k = depth + 1 if broken_is_sib else k
+                    broken = nodes[k]
+                k = nmax + 1 if broken_is_sib else k
                 dc = False
-                if broken is not None and not mh:
+                if broken is not None and not mh and not (dup == 'disjoint' and broken == nodes[first[depth]]):
                     dc = len(t.files[broken]) == len(base.files[broken])
                 if broken is not None and t.files[broken] == base.files[broken]:
-                    continue    # nothing changed at that level (cannot happen for these kinds)
+                    continue    # nothing changed at that node (cannot happen for these kinds)
                 case = {'tree': t.to_json(), 'base': base.to_json(), 'depth': depth, 'sib': sib,
                         'k': k, 'kind': kind, 'j': j, 'broken': broken, 'dc': dc, 'info': jinfo,
                         'broken_is_sib': broken_is_sib, 'tier': tier}
                 vs = check_case(case, scratch, stats)
                 stats.case((spec, mh, sib, kind, j, k), nontrivial=(k >= 1 and not dc))
+                if spec[0] != 'chain' and k >= 1 and not dc:
+                    stats.counters['cases_' + spec[0]] += 1
                 if k >= 1 and len(stats.samples) < 2:
                     stats.sample({'depth': depth, 'comps': comps, 'mhashes': mh, 'sib': sib, 'tamper': kind,
-                                  'level_j': j, 'recomputed_up_to_k': k, 'broken_link': broken})
+                                  'level_j': j, 'recomputed_up_to_node_k': k, 'broken_link': broken,
+                                  'deleg': deleg, 'dup': dup})
                 for v in vs:
                     stats.violation(v['sig'], v['case'], v['message'])
     return stats
@@ -422,4 +483,9 @@ def finish(total, tier):
                  'raise/assert_path/exc:ManifestMismatch', 'same_as_base/', 'no_chain_failure/'):
         if need not in keys:
             errs.append(f'vacuity: outcome class {need} never seen')
+    for fam in ('deleg', 'dup'):
+        if not total.counters.get('cases_' + fam):
+            errs.append(f'vacuity: family {fam} produced no tampered case with a definite demand')
+    if 'raise/find_timestamp/exc:ManifestMismatch' not in keys:
+        errs.append('vacuity: find_timestamp never needed a broken same-directory Manifest')
     return errs
